@@ -236,9 +236,37 @@ class LetEnv:
                 l = strip(n["l"])
                 if l.get("k") == "Path" and l.get("res") == "local":
                     assigned.add(l.get("id"))
+        self.payloads = {}      # x bound by Some(x)/Ok(x) against an expression: x is that expression's payload
         for n in walk(root):
             if n.get("k") == "Let" and n["pat"].get("k") == "Bind" and n.get("init") is not None and not n.get("els") and n["pat"]["id"] not in assigned:
                 self.lets[n["pat"]["id"]] = n["init"]
+            src = pat_ = None
+            if n.get("k") in ("Let", "LetCond") and n.get("init") is not None:
+                src, pat_ = n["init"], n["pat"]
+                self._payload(pat_, src, assigned)
+                # `let S { a, b: c, .. } = e;` / `let (a, b) = (x, y);`: each binding is that field / element of e
+                if pat_.get("k") == "Struct" and not n.get("els"):
+                    for fp in pat_.get("fields", []) or []:
+                        q = fp.get("pat") if isinstance(fp, dict) else None
+                        if isinstance(q, dict) and q.get("k") == "Bind" and q["id"] not in assigned and fp.get("name"):
+                            self.lets[q["id"]] = {"k": "Field", "name": fp["name"], "base": src, "ty": q.get("ty"), "sp": q.get("sp")}
+                if pat_.get("k") == "Tuple" and not n.get("els") and strip(src).get("k") == "Tup" and len(strip(src)["elems"]) == len(pat_["pats"]):
+                    for q, e_ in zip(pat_["pats"], strip(src)["elems"]):
+                        if q.get("k") == "Bind" and q["id"] not in assigned:
+                            self.lets[q["id"]] = e_
+            if n.get("k") == "Match":
+                for a in n["arms"]:
+                    self._payload(a["pat"], n["scrut"], assigned)
+
+    def _payload(self, p, src, assigned):
+        while isinstance(p, dict) and p.get("k") == "Ref":
+            p = p["pat"]
+        if isinstance(p, dict) and p.get("k") == "TupleStruct" and (p.get("path") or "").endswith(("::Some", "::Ok")) and len(p.get("pats", [])) == 1:
+            q = p["pats"][0]
+            while q.get("k") == "Ref":
+                q = q["pat"]
+            if q.get("k") == "Bind" and q["id"] not in assigned and not q.get("sub"):
+                self.payloads[q["id"]] = src
 
     def resolve(self, e, peel=False, depth=0):
         """follow locals to their initialisers; with peel=True also look through `?` and Option/Result adaptors that keep the payload"""
@@ -250,6 +278,9 @@ class LetEnv:
                 s = strip(s["recv"])
             elif s.get("k") == "Path" and s.get("res") == "local" and s.get("id") in self.lets:
                 s = strip(self.lets[s["id"]])
+                depth += 1
+            elif peel and s.get("k") == "Path" and s.get("res") == "local" and s.get("id") in self.payloads:
+                s = strip(self.payloads[s["id"]])
                 depth += 1
             else:
                 break
@@ -374,6 +405,8 @@ def pat(p):
         return "&" + pat(p["pat"])
     if k == "Or":
         return " | ".join(pat(x) for x in p["pats"])
+    if k == "Slice":
+        return "[%s]" % ", ".join([pat(x) for x in p.get("before", []) or []] + ([".."] if p.get("mid") is not None else []) + [pat(x) for x in p.get("after", []) or []])
     return "<%s>" % k
 
 
